@@ -122,6 +122,37 @@ def surface_jobs(tier):
     return jobs
 
 
+def generic_programs(tier, rnd):
+    """a generic parameter bound by two arguments, the result declared at every type of a small universe:
+    whatever the compiler accepts must produce a value of the declared type"""
+    types = ["int", "str", "Sequence<int>", "Sequence<str>", "Optional<int>", "Optional<str>", "Sequence<Sequence<int>>", "Sequence<Sequence<str>>",
+             "(int, str)", "Sequence<Optional<int>>"]
+    vals = ["1", '"a"', "[]", "[1]", '["a"]', "none()", "some(1)", 'some("a")', "[[]]", "[[1]]", '[["a"]]', "some(none())", "[none()]", "[some(1)]", '(1, "a")']
+    pre = "fn first<T>(a: T, b: T)->T { a }\nfn second<T>(a: T, b: T)->T { b }\nfn third<T>(a: T, b: T, c: T)->T { c }\n"
+    out = []
+    for d in types:
+        for x in vals:
+            for y in vals:
+                out.append(pre + "let v: %s = second(%s, %s);\n" % (d, x, y))
+                if tier == "thorough":
+                    out.append(pre + "let v: %s = first(%s, %s);\n" % (d, x, y))
+                    out.append(pre + "let v: %s = third(%s, %s, %s);\n" % (d, x, y, x))
+                    out.append(pre + "let v: %s = [%s] + [%s];\n" % (d, x, y))
+    if tier == "quick":
+        out = rnd.sample(out, 700)
+    return out
+
+
+NEAR_MISS = [
+    # a definition that differs from the forward declaration (return type, optional flag) does not fulfil it
+    'forward fn label(i: int)->int;\nfn twice(i: int)->int { label(i) * 2 }\nfn label(i: int)->str { "n" + i.to_str() }\nlet r = twice(3);\n',
+    'forward fn label(i: int)->int;\nfn twice(i: int)->int { label(i) * 2 }\nfn label(i: int)->str { "n" + i.to_str() }\nfn main()->int { twice(3) }\n',
+    'fn outer()->int {\n forward fn pick(i: int)->int;\n fn use(i: int)->int { pick(i) + 1 }\n fn pick(i: int, j: int ?= 2)->(int, int) { (i, j) }\n use(1)\n}\nlet r = outer();\n',
+    'forward fn mk(i: int)->Sequence<int>;\nfn total(i: int)->int { mk(i).sum() }\nfn mk(i: int)->Sequence<str> { ["a"] }\nlet r = total(3);\n',
+    'forward fn mk(i: int)->Optional<int>;\nfn total(i: int)->int { mk(i).value() + 1 }\nfn mk(i: int)->Optional<str> { some("a") }\nlet r = total(3);\n',
+]
+
+
 def run(chk, tier, seed):
     rnd = random.Random(seed)
     jobs = []
@@ -138,6 +169,7 @@ def run(chk, tier, seed):
     for i in range(300 if tier == "quick" else 4000):
         texts.append(c12.mutate(rnd, rnd.choice(corp), corp))
     texts += [s["src"] for s in corpus.scripts() if not s["cfg"].get("expected_violation")][:: (4 if tier == "quick" else 1)]
+    texts += generic_programs(tier, rnd) + NEAR_MISS
     texts = list(dict.fromkeys(texts))
     for i, t in enumerate(texts):
         jobs.append(job_for("t%d" % i, t, LIMITS[i % len(LIMITS)], {"regex": True}))
